@@ -28,7 +28,7 @@ fn entry_text() -> BoxedStrategy<String> {
 
 /// a malformed entry: C08 fault or an invalid UTF-8 byte; never an empty line inside
 fn bad_entry() -> BoxedStrategy<Vec<u8>> {
-    (entry_text(), 0u8..7, any::<u16>())
+    (entry_text(), 0u8..9, any::<u16>())
         .prop_map(|(good, kind, sel)| {
             let mut lines: Vec<String> = good.lines().map(String::from).collect();
             match kind {
@@ -40,7 +40,12 @@ fn bad_entry() -> BoxedStrategy<Vec<u8>> {
                 _ => {}
             }
             let mut bytes = (lines.join("\n") + "\n").into_bytes();
-            if kind >= 5 {
+            if kind >= 7 {
+                // a truncated multi-byte sequence as the very last bytes of the entry
+                let tail: &[u8] = [&b"\xc3"[..], b"\xe2\x82", b"\xf0\x9f\x92"][(sel % 3) as usize];
+                let at = bytes.len() - 1;
+                bytes.splice(at..at, tail.iter().copied());
+            } else if kind >= 5 {
                 // invalid UTF-8 inside a value
                 let eqs: Vec<usize> = bytes.iter().enumerate().filter(|(_, b)| **b == b'=').map(|(i, _)| i).collect();
                 let at = eqs[idx(sel, eqs.len())] + 1;
